@@ -61,3 +61,26 @@ Fixpoint evs_eqb (a b : list (nat * N)) : bool :=
 
 Definition check_interleave (d : tbl) (streams : list (list N)) (events : list (nat * N)) : bool :=
   evs_eqb (snd (run tbl (list N) N tstep d streams (map fst events))) events.
+
+(* ---- the same protocol when a step MAY write the shared value (used to state what the read-only premise buys):
+   stepw d s = (d', (s', o)); the shared value is threaded through the global order of steps. ---- *)
+Section W.
+  Variables (D St Out : Type).
+  Variable stepw : D -> St -> D * (St * Out).
+
+  Fixpoint runw (d : D) (st : list St) (sched : list nat) : D * (list St * list (nat * Out)) :=
+    match sched with
+    | [] => (d, (st, []))
+    | t :: rest =>
+        match nth_error st t with
+        | None => runw d st rest
+        | Some s =>
+            let '(d', (s', o)) := stepw d s in
+            let '(d'', (st', outs)) := runw d' (upd St st t s') rest in
+            (d'', (st', (t, o) :: outs))
+        end
+    end.
+
+  Definition read_only : Prop := forall d s, fst (stepw d s) = d.
+  Definition proj_step (d : D) (s : St) : St * Out := snd (stepw d s).
+End W.
